@@ -9,6 +9,7 @@
 //!   bo <v> <stages>                       block_on(scripted future returning v)
 //!   ex <stages per task: a+b+c ...>       Executor: spawn one task per word, join all
 //! stages: s<us> (timer sleep) e<us> (completed by another thread after us) y (yield once) x (never)
+//!         Y (wakes twice inside one poll: manual reproduction of the block_timeout deadlock only)
 use std::future::Future;
 use std::pin::Pin;
 use std::sync::atomic::{AtomicBool, AtomicI64, Ordering};
@@ -384,6 +385,10 @@ enum Stage {
     TimerSleep(i128),
     Ext(i128),
     Yield,
+    /// wakes TWICE from inside one poll.  Never generated by props/C42.py: under block_timeout this
+    /// blocks forever in the waker's send (finding C42-block-timeout-self-wake-deadlock); kept for
+    /// manual reproduction: `echo 'bt 1000 1 0 Y' | timeout 5 c42`
+    Yield2,
     Never,
 }
 
@@ -397,6 +402,7 @@ fn parse_stages(s: &str) -> Vec<Stage> {
                 "s" => Stage::TimerSleep(a),
                 "e" => Stage::Ext(a),
                 "y" => Stage::Yield,
+                "Y" => Stage::Yield2,
                 _ => Stage::Never,
             }
         })
@@ -468,6 +474,17 @@ impl Scripted {
                     if !self.started {
                         self.started = true;
                         self.fwd(cx, None).wake_by_ref();
+                        return Poll::Pending;
+                    }
+                    self.started = false;
+                    self.i += 1;
+                }
+                Stage::Yield2 => {
+                    if !self.started {
+                        self.started = true;
+                        let w = self.fwd(cx, None);
+                        w.wake_by_ref();
+                        w.wake_by_ref();
                         return Poll::Pending;
                     }
                     self.started = false;
